@@ -1045,6 +1045,11 @@ class RTCSctpTransport(AsyncIOEventEmitter):
 
         # server
         elif isinstance(chunk, InitChunk) and self.is_server:
+            # a stray or duplicated INIT must not alter an existing association
+            # (RFC 4960 section 5.2.2)
+            if self._association_state != self.State.CLOSED:
+                return
+
             self._last_received_tsn = tsn_minus_one(chunk.initial_tsn)
             self._reconfig_response_seq = tsn_minus_one(chunk.initial_tsn)
             self._remote_verification_tag = chunk.initiate_tag
